@@ -8,6 +8,8 @@ import importlib
 import os
 import subprocess
 
+import random as _random
+DECOY = {"n": 0, "rng": _random.Random(20260926), "made": {}}       # see Inst.decoy()
 BLOCK_CIPHERS = ["AES", "DES", "DES3", "Blowfish", "CAST", "ARC2"]
 BS = {"AES": 16, "DES": 8, "DES3": 8, "Blowfish": 8, "CAST": 8, "ARC2": 8}
 KEYLENS = {"AES": [16, 24, 32], "DES": [8], "DES3": [16, 24], "Blowfish": list(range(4, 57)),
@@ -79,7 +81,50 @@ class Inst(object):
 
     def new(self, mode, **params):
         params.update(self.kw)
+        DECOY["n"] += 1
+        if DECOY["n"] % 3 == 0:
+            self.decoy(mode, params)
         return self.mod.new(self.key, getattr(self.mod, "MODE_" + mode), **params)
+
+    def decoy(self, mode, params):
+        """Before every third library object a NEIGHBOURING object is created and used: same cipher and key with ONE thing
+        changed (mode, IV / nonce, segment size, effective key length, AES-NI on/off, one key bit).  Its output is discarded:
+        the judged object is still compared with the model for its own parameters, so anything the library remembers from
+        one object to the next (key-schedule or IV caches keyed too coarsely) turns into a wrong ciphertext."""
+        r = DECOY["rng"]
+        kw = dict(params)
+        key = self.key
+        variant = r.choice(["ecb-same-key", "other-iv", "other-key-bit", "toggle-param", "twin"])
+        try:
+            if variant == "ecb-same-key":
+                kw = dict(self.kw)
+                mode = "ECB"
+            elif variant == "other-iv":
+                for f in ("iv", "IV", "nonce"):
+                    if isinstance(kw.get(f), (bytes, bytearray)) and len(kw[f]):
+                        kw[f] = bytes(kw[f][:-1]) + bytes([kw[f][-1] ^ 1])
+                        break
+                else:
+                    variant = "twin"
+            elif variant == "other-key-bit":
+                key = key[:-1] + bytes([key[-1] ^ 0x10])
+            elif variant == "toggle-param":
+                if self.name == "AES":
+                    kw["use_aesni"] = not kw.get("use_aesni", True)
+                elif self.name == "ARC2":
+                    kw["effective_keylen"] = r.choice([e for e in (40, 64, 128, 1024) if e != kw.get("effective_keylen", 1024)])
+                elif "segment_size" in kw:
+                    kw["segment_size"] = 8 if kw["segment_size"] != 8 else 8 * self.bs
+                else:
+                    variant = "twin"
+            if "counter" in kw and variant != "ecb-same-key":
+                # a Counter dictionary can be given to several objects; nothing to copy
+                pass
+            d = self.mod.new(key, getattr(self.mod, "MODE_" + mode), **kw)
+            d.encrypt(bytes(range(2 * self.bs)))
+            DECOY["made"][variant] = DECOY["made"].get(variant, 0) + 1
+        except Exception:      # noqa  (degenerate 3DES key, OpenPGP / CCM specifics ...: the decoy is irrelevant to any verdict)
+            DECOY["made"]["failed"] = DECOY["made"].get("failed", 0) + 1
 
     def ref(self):
         if self._ref is None:
